@@ -144,7 +144,7 @@ pub fn eval(op: &str, a: &[&str]) -> Option<String> {
 }
 
 /// labels that stay distinct under snake / Pascal case conversion and cannot clash with a definition name
-const SAFE_LABELS: &[&str] = &["a", "b", "name", "id"];
+const SAFE_LABELS: &[&str] = &["a", "Type", "name", "Ref", "b", "fn", "id", "loop_count", "Use", "Match", "self"];
 fn safe_ids(t: &T) -> T {
     // every label becomes a plain name (numeric labels other than tuple positions are a known finding of their own)
     let named = |fs: &Vec<(u32, T)>| -> Vec<(u32, T)> { fs.iter().enumerate().map(|(k, (_, t))| (candid::idl_hash(SAFE_LABELS[k % SAFE_LABELS.len()]), safe_ids(t))).collect() };
@@ -212,6 +212,10 @@ pub fn generate(thorough: bool, r: &mut Rng, em: &mut Emit) {
                     "type List = opt record { head : nat; tail : List };\ntype Tree = variant { leaf : nat; node : record { Tree; Tree } };\nservice : (List) -> { walk : (Tree) -> (vec List) }\n",
                     "type r = variant { Ok : nat; Err : text };\ntype s = service { get : (func (nat) -> (r) query) -> (opt s) };\nservice : s\n",
                     "type node = record { kids : vec node; up : opt node; tag : variant { red; black : record { depth : nat8 } } };\nservice : { f : (node, record { node; nat }) -> (variant { a : node; b }) }\n",
+                    "type tree = vec tree;\nservice : { f : (tree) -> () }\n",
+                    "type forest = vec bush;\ntype bush = vec forest;\nservice : { f : (forest) -> (bush) }\n",
+                    "type a = vec b;\ntype b = opt a;\nservice : { f : (a) -> (b) }\n",
+                    "type r = record { Type : nat; Match : text; Loop : bool; Ref : opt r; \"Use\" : vec r; \"Self\" : nat8; \"fn\" : int };\nservice : { get : () -> (r) query }\n",
                     "type pair = record { nat; text };\ntype triple = record { pair; opt pair; vec record { int; bool } };\nservice : { f : (pair) -> (triple) }\n"];
     for (text, known) in directed.iter().map(|t| (*t, 0u8)).chain(KNOWN_COLLISIONS.iter().map(|t| (*t, 1u8))).chain(NUMERIC_LABELS.iter().map(|t| (*t, 2u8))).chain(ONE_TUPLES.iter().map(|t| (*t, 3u8))) {
         if let Ok(b) = bind(text) { if let Ok((te, act)) = crate::ops::c12::load(text) {
